@@ -319,6 +319,9 @@ def run(chk):
     # type names (file stems) that are no C++ identifier are written out verbatim as the class name (known finding F22)
     for tn in ("settings-page", "2ndPage", "My Type", "a.b", "class", "union", "\u00dcbersicht", "Good_1", "_x"):
         docs.append(("oddname:" + tn, wide_doc(1), [VERIF_METATYPES], True))
+    # slots that are not public may only appear in a header if the call compiles (it cannot): such a call has to be rejected
+    for n, body in enumerate(("onPlain: a.guarded()", "onPlain: { a.guardedInt(1); a.poke() }", "onPlain: a.hidden()", "onPlain: guarded()", "ival: { a.guarded(); return a.ival }")):
+        docs.append(("nonpublic%d" % n, P.HEAD + "  TSource { id: t0\n    %s\n  }\n}\n" % body, [VERIF_METATYPES], True))
     docs.append(("ctxquote", P.HEAD + "  TSource { id: t0; text: a.flag ? qsTr(\"x\") : a.text }\n}\n", [VERIF_METATYPES], True))
     for n, g in enumerate(GADGET_DOCS):
         docs.append(("gadget%d" % n, g, [QT5_METATYPES, VERIF_T_METATYPES], False))
